@@ -347,6 +347,7 @@ type c09Node struct {
 	// struct from the transaction's header does; the library is handed the same pointer every time
 	oneOpts bool
 	ovar    ed25519.Options
+	vvar    ed25519.VerifyOptions // ... and one VerifyOptions variable that the Options variable points to
 }
 
 // o returns the options to pass for transaction x: x's own struct, or the node's one variable set to it.
@@ -355,6 +356,11 @@ func (nd *c09Node) o(x *c09Tx) *ed25519.Options {
 		return x.opts
 	}
 	nd.ovar = *x.opts
+	if x.opts.Verify != nil {
+		// edited in place for every call: what an earlier call was told is not what the struct says now
+		nd.vvar = *x.opts.Verify
+		nd.ovar.Verify = &nd.vvar
+	}
 	return &nd.ovar
 }
 
